@@ -472,6 +472,8 @@ def run(ctx) -> None:
     ctx.guard(forwarding_discipline, "R08.12", ['recipient', 'enc', 'tag', 'cek', 'aad', 'iv', 'ek', 'value'], 51, "jwe")  # arguments are handed on under their own name (generic routing rule, rules/common.py)
     ctx.guard(r08_9)
     from .common import every_recipient_tried
+    from .c04 import r04_12 as _r04_12
+    ctx.guard_as("R08.19", _r04_12)  # "ECDH-1PU draft: the tag enters the KDF of the key-wrapping modes": whether the tag-aware derivation is used is decided by the recipient's own algorithm, not by a trait read from another recipient (seed C08-s: ECDH-ES+A128KW listed before ECDH-1PU+A128KW derived the 1PU KEK without the tag)
     ctx.guard(every_recipient_tried, "R08.18")  # a multi-recipient JWE of another implementation decrypts with the key of ANY of its recipients
     from .c20 import r20_1 as _r20_1
     from ..effects import Effects as _Fx
